@@ -977,4 +977,17 @@ def decodedAncestors : List Bytes → List (List Bytes)
   | [] => [[]]
   | l :: t => (l :: t) :: decodedAncestors t
 
+/-! ### the engines' header gate (`server/udp_engine.go`, shared by the ring path, the
+inline reader pass and the TCP engine) -/
+
+/-- `acceptHeader`: 0 accept, 1 ignore (no reply), 2 NOTIMP, 3 FORMERR. -/
+def acceptVerdict (flags qd an ns ar : Nat) : Nat :=
+  if flags &&& 0x8000 ≠ 0 then 1
+  else if (flags >>> 11) &&& 0xF ≠ 0 ∧ (flags >>> 11) &&& 0xF ≠ 4 then 2
+  else if qd ≠ 1 ∨ an > 1 ∨ ns > 1 ∨ ar > 2 then 3
+  else 0
+
+/-- `rejectInPlace`: rcode of the bare-header rejection (opcode echoed, QR set). -/
+def rejectRcode (verdict : Nat) : Nat := if verdict = 2 then 4 else 1
+
 end SdnsVerif.Model.WirePath
